@@ -2,7 +2,6 @@
 
 #![allow(unused_variables)]
 use crate::linalg::Matrix;
-use approx_eq::rel_diff;
 
 /// Integrate a function `f` from `a` to `b` using the [trapezoid rule](https://en.wikipedia.org/wiki/Trapezoidal_rule) with `n` partitions.
 pub fn trapz<F>(f: F, a: f64, b: f64, n: usize) -> f64
@@ -38,7 +37,8 @@ where
                 r[[n, m - 1]] + (r[[n, m - 1]] - r[[n - 1, m - 1]]) / (4_f64.powi(m as i32) - 1.);
         }
         if n > 1
-            && (rel_diff(r[[n, n]], r[[n - 1, n - 1]]) < eps
+            && ((r[[n, n]] - r[[n - 1, n - 1]]).abs()
+                < eps * r[[n, n]].abs().min(r[[n - 1, n - 1]].abs())
                 || (r[[n, n]] - r[[n - 1, n - 1]]).abs() < eps)
         {
             return r[[n, n]];
